@@ -1204,6 +1204,10 @@ fn c10(cases_path: &str, out: &mut dyn Write) {
             let (sent, local, locate, fragment): (bool, String, &str, bool) = match param.as_str() {
                 "persist" => { let (s, l) = go!(Commit, move |b| b.confirmed(true)?.persist(Some(Token::new(&val)))?.finish()); (s, l, "persist", false) }
                 "persist-id" => { let (s, l) = go!(Commit, move |b| b.persist_id(Some(Token::new(&val)))?.finish()); (s, l, "persist-id", false) }
+                // every parameter of the request at once: a follow-up confirmed commit that renews the token - each value
+                // that goes out is the one that was given (if the library refuses the combination, nothing goes out)
+                "persist-id-with-persist" => { let (s, l) = go!(Commit, move |b| b.confirmed(true)?.persist(Some(Token::new("the-new-token")))?.persist_id(Some(Token::new(&val)))?.finish()); (s, l, "persist-id", false) }
+                "persist-with-persist-id" => { let (s, l) = go!(Commit, move |b| b.confirmed(true)?.persist_id(Some(Token::new("the-pending-token")))?.persist(Some(Token::new(&val)))?.finish()); (s, l, "persist", false) }
                 "cancel-persist-id" => { let (s, l) = go!(CancelCommit, move |b| b.persist_id(Some(Token::new(&val)))?.finish()); (s, l, "persist-id", false) }
                 "log" => { let (s, l) = go!(CommitConfiguration, move |b| b.with_log_message(&val).finish()); (s, l, "log", false) }
                 "log-after-failed-write" => {
